@@ -119,6 +119,12 @@ class C11(UdpCheck):
             # ECONNRESET on the server's NEXT recvfrom: a failing system call provoked by any datagram source
             for j in range(rng.choice([1, 3])):
                 plan.append({"op": "recvreset", "global": True, "t": round(1.0 + rng.random() * (dur - 5.0), 3)})
+        rng_w = random.Random("winsock|%s" % (rng.getstate()[1][:3],))      # (does not consume from the main stream)
+        if cfg["entry"] == "udpserver" and rng_w.random() < 0.4:
+            # a Windows socket reports a datagram larger than the receive buffer as an error of recvfrom (WSAEMSGSIZE)
+            # instead of truncating it silently: "oversized packets" from any source become failing system calls
+            plan.append({"op": "winsock", "global": True, "t": 0.3, "n": rng_w.choice([1, 3, 20]),
+                         "at": round(1.0 + rng_w.random() * (dur - 5.0), 3), "srcmode": rng_w.choice(["fresh", "victim", "blocked"])})
         if n > 1 and blocked_client is None and rng.random() < 0.35:
             # one client that completed the handshake turns hostile: it stops its own loop and from then on its address
             # sends datagrams sealed under ITS session key whose content no honest sender would produce
@@ -145,6 +151,7 @@ class C11(UdpCheck):
     def prepare(self, w, case):
         Attacker(w)
         w.custom_ops["flood"] = self.op_flood
+        w.custom_ops["winsock"] = self.op_winsock
         w.custom_ops["insider"] = self.op_insider
         w.custom_ops["recvreset"] = self.op_recvreset
         self.insider_seq = None
@@ -219,6 +226,24 @@ class C11(UdpCheck):
             att.count("flood-" + kind)
             w.net.inject(src, SERVER_ADDR, d, delay=op["spread"] * j / max(1, op["count"]), meta={"gen": "flood-" + kind})
         w.probe("flood_from_" + op["srcmode"])
+
+    def op_winsock(self, w, _node, op):
+        def note(n_, buf):
+            w.probe("server_recvfrom_emsgsize_raised")
+        for sock in w.seams.server_sockets:
+            sock.msgsize_error = note
+        rng = random.Random("winsock|%s" % w.cfg["seed"])
+        bl = sorted(w.cfg["server"].get("blocklist") or ())
+        for j in range(op["n"]):
+            if op["srcmode"] == "victim" and w.clients:
+                src = client_addr(0)
+            elif op["srcmode"] == "blocked" and bl and not bl[0].startswith("::"):
+                src = (bl[0], 5000 + j)
+            else:
+                src = ("10.9.%d.%d" % (rng.randrange(256), rng.randrange(1, 255)), rng.randrange(1024, 65535))
+            size = w.cfg["mtu"] + 512 + rng.choice([1, 2, 100, 3000])
+            w.attacker.count("oversized-datagram")
+            w.net.inject(src, SERVER_ADDR, rng.randbytes(size), delay=op["at"] - w.k.now + 0.01 * j, meta={"gen": "oversized"})
 
     def op_recvreset(self, w, _node, op):
         import errno
